@@ -10,6 +10,7 @@ package props
 import (
 	"encoding/binary"
 	"fmt"
+	"verif/netsim"
 
 	"github.com/bbockelm/cedar/security"
 
@@ -22,13 +23,15 @@ type c04Shape struct {
 	auth    security.SecurityLevel
 	methods []security.AuthMethod
 	resumed bool
+	noReply bool // resumed by a scripted requester that asks for no reply: cleartext in ONE direction only
 }
 
 var c04Shapes = []c04Shape{
-	{"noauth", security.SecurityNever, []security.AuthMethod{mCTB}, false},
-	{"claimtobe", security.SecurityRequired, []security.AuthMethod{mCTB}, false},
-	{"token", security.SecurityRequired, []security.AuthMethod{mTOK}, false},
-	{"resumed", security.SecurityRequired, []security.AuthMethod{mCTB}, true},
+	{"noauth", security.SecurityNever, []security.AuthMethod{mCTB}, false, false},
+	{"claimtobe", security.SecurityRequired, []security.AuthMethod{mCTB}, false, false},
+	{"token", security.SecurityRequired, []security.AuthMethod{mTOK}, false, false},
+	{"resumed", security.SecurityRequired, []security.AuthMethod{mCTB}, true, false},
+	{"resumed-noreply", security.SecurityRequired, []security.AuthMethod{mCTB}, true, true},
 }
 
 type c04Fault struct {
@@ -60,6 +63,8 @@ func c04Exec(sh c04Shape, flt *c04Fault) *c04Run {
 	sc := baseCfg(sh.auth, security.SecurityRequired, sh.methods, []security.CryptoMethod{security.CryptoAES}, true)
 	cc.Command = 5
 	cc.PeerName = "<" + hsServerAddr + ">"
+	var r0sid string
+	var r0key []byte
 	if sh.resumed {
 		// establish honestly first; the client's cache then holds the session
 		r0 := hsRun(hsOpts{ClientCfg: cc, ServerCfg: sc, App: true})
@@ -67,6 +72,7 @@ func c04Exec(sh c04Shape, flt *c04Fault) *c04Run {
 			run.r = r0
 			return run
 		}
+		r0sid, r0key = r0.S.Neg.SessionId, append([]byte(nil), r0.S.Neg.GetSharedSecret()...)
 		cc2 := *cc
 		cc2.ECDHPublicKey = ""
 		cc = &cc2
@@ -74,6 +80,13 @@ func c04Exec(sh c04Shape, flt *c04Fault) *c04Run {
 		defer func() {
 			security.GetSessionCache().Invalidate(r0.S.Neg.SessionId)
 		}()
+	}
+	var requester func(*netsim.End) error
+	obs := &c06Obs{}
+	if sh.noReply {
+		// the legacy form of a resumption: the request is the only cleartext of the
+		// connection; the scripted requester holds the right key and binds what IT sent
+		requester = c06Requester(c06Req{sid: r0sid, keyKind: "right", key: r0key, reply: false, addr: hsClientAddr, label: "c04"}, obs)
 	}
 	var held []byte
 	mk := func(dir string) func(int, []byte) [][]byte {
@@ -135,6 +148,14 @@ func c04Exec(sh c04Shape, flt *c04Fault) *c04Run {
 			return [][]byte{fr}
 		}
 	}
+	if requester != nil {
+		run.r = hsRun(hsOpts{ServerCfg: sc, ClientScript: requester, App: true, HookC2S: mk("c2s"), HookS2C: mk("s2c")})
+		if obs.appProt {
+			run.r.C.AppGot = obs.appFromSrv
+		}
+		run.r.C.Resumed = true
+		return run
+	}
 	run.r = hsRun(hsOpts{ClientCfg: cc, ServerCfg: sc, App: true, HookC2S: mk("c2s"), HookS2C: mk("s2c")})
 	if run.r.S.Neg != nil {
 		security.GetSessionCache().Invalidate(run.r.S.Neg.SessionId)
@@ -146,6 +167,12 @@ func c04Exec(sh c04Shape, flt *c04Fault) *c04Run {
 func c04Layout(sh c04Shape) (c2s, s2c []int, err error) {
 	run := c04Exec(sh, nil)
 	r := run.r
+	if sh.noReply {
+		if r.S.Err != nil || string(r.S.AppGot) != "ping-from-requester" || string(r.C.AppGot) != "pong-from-server" || !r.S.Stream.IsEncrypted() {
+			return nil, nil, fmt.Errorf("honest %s resumption failed: server %v got %q, requester got %q", sh.name, r.S.Err, r.S.AppGot, r.C.AppGot)
+		}
+		return []int{len(r.C2S[0])}, nil, nil
+	}
 	if r.C.Err != nil || r.S.Err != nil || string(r.S.AppGot) != "ping-from-client" || string(r.C.AppGot) != "pong-from-server" {
 		return nil, nil, fmt.Errorf("honest %s handshake failed: client %v server %v app %v/%v", sh.name, r.C.Err, r.S.Err, r.C.AppErr, r.S.AppErr)
 	}
@@ -174,7 +201,7 @@ func c04Layout(sh c04Shape) (c2s, s2c []int, err error) {
 func C04Plan() *vlib.Plan {
 	p := &vlib.Plan{
 		Property: "C04", Level: "fault_enumeration",
-		Rule:   "E-FAULT: for each handshake shape (no authentication, CLAIMTOBE, TOKEN, resumed session; both sides REQUIRE encryption) a pre-pass records the cleartext frame layout; then one fault per run through a relay between two real endpoints: every byte offset of every cleartext frame (header and payload) x substitutes, an empty frame (flag 0 / 1) inserted before every frame, every frame removed / duplicated / split at its midpoint, every adjacent same-direction pair merged. Oracle: fault applied and any application message accepted by either side => violation. Non-trivial = the fault was applied to a live frame (distinct (shape, direction, frame, fault) by construction).",
+		Rule:   "E-FAULT: for each handshake shape (no authentication, CLAIMTOBE, TOKEN, resumed session, session resumed by a scripted requester that asks for no reply - cleartext in one direction only; both sides REQUIRE encryption) a pre-pass records the cleartext frame layout; then one fault per run through a relay between two real endpoints: every byte offset of every cleartext frame (header and payload) x substitutes, an empty frame (flag 0 / 1) inserted before every frame, every frame removed / duplicated / split at its midpoint, every adjacent same-direction pair merged. Oracle: fault applied and any application message accepted by either side => violation. Non-trivial = the fault was applied to a live frame (distinct (shape, direction, frame, fault) by construction).",
 		Assume: []string{"frame layout of the cleartext path is value-independent (lengths recorded in the pre-pass; offsets beyond a live frame are counted as skipped)", "session ids / ECDH keys / nonces are random per run: faults are addressed by position, not value"},
 	}
 	p.Gen = func(tier string, yield func(vlib.Case)) {
@@ -182,7 +209,7 @@ func C04Plan() *vlib.Plan {
 		if tier == "thorough" {
 			masks = []byte{0x01, 0x20, 0x80}
 		}
-		p.Bounds = map[string]any{"substitutes": masks, "shapes": 4}
+		p.Bounds = map[string]any{"substitutes": masks, "shapes": len(c04Shapes)}
 		layouts := map[string]any{}
 		for _, sh := range c04Shapes {
 			sh := sh
@@ -190,7 +217,7 @@ func C04Plan() *vlib.Plan {
 			if err != nil {
 				yield(vlib.Case{ID: "layout/" + sh.name, Run: func() *vlib.Result {
 					r := &vlib.Result{}
-					r.Violate("C04/harness-layout/"+sh.name, "%v", err)
+					r.Violate("C04/honest-handshake-fails/"+sh.name, "an untampered handshake of this shape does not complete with bound application data (for resumed-noreply the peer is the independent scripted requester, which binds the request it sent as the documented format says): %v", err)
 					return r
 				}})
 				continue
@@ -222,7 +249,7 @@ func C04Plan() *vlib.Plan {
 					nClear = len(s2c)
 				}
 				if flt.kind == "dup" && flt.frame+1 >= nClear {
-					accepted = (flt.dir == "s2c" && len(r.C.AppGot) > 0) || (flt.dir == "c2s" && len(r.S.AppGot) > 0 && string(r.S.AppGot) != "ping-from-client")
+					accepted = (flt.dir == "s2c" && len(r.C.AppGot) > 0) || (flt.dir == "c2s" && len(r.S.AppGot) > 0 && string(r.S.AppGot) != "ping-from-client" && string(r.S.AppGot) != "ping-from-requester")
 					if !accepted {
 						res.Outcome("post-negotiation-injection-rejected-by-receiver")
 						return res
